@@ -14,11 +14,14 @@ import (
 var runePool = []rune{
 	'a', 'b', 'c', 'A', 'B', '\n', ' ', 'é', 'É', '€', 0x1F600, 0xFFFD, 'K', 0x212A, '_',
 	'0', '1', '2', '3', '4', '5', '6', '7', '8', '9', '-',
+	// case pairs whose two members have different UTF-8 lengths or fold across scripts
+	0x023A, 0x2C65, 0x0130, 0x1E9E, 0x00DF,
 }
 
 // casePairs are runes that are interesting together under ignoreCase.
 var casePairs = [][]rune{
 	{'a', 'A'}, {'b', 'B'}, {'é', 'É'}, {'K', 0x212A}, {'K', 'k'}, {'a', 'A', 'b'}, {0x212A, 'k'},
+	{0x023A, 0x2C65}, {0x023A, 0x2C65, 'a'}, {0x0130, 'i'}, {0x1E9E, 0x00DF},
 }
 
 // rangeTable resolves a unicode class name exactly as
